@@ -61,4 +61,12 @@ CHECKS = {
         text="Every deviation within the bound is written to a real TOML file and read back and compared field by field (exact; angles to 4 ulp); every (field, unit, form, value) is compared with astropy's own conversion; rejection alphabets must raise.",
         note="None sub-models outside the alphabet; astropy unit conversion is the stated oracle for the unit clause",
     ),
+    "C16": dict(
+        engine="E1-lattice",
+        level="exploration",
+        design_ref="DESIGN.md §3 C16",
+        technique="exhaustive enumeration of a configuration alphabet (mode x spectrum x cloud x channels, plus non-default values in every header-mapped field) through compute() -> Table.write(fits) -> Table.read / config_from_fits with RNG and clock owned",
+        text="Every configuration of the alphabet is simulated, written, read back and reloaded; every column is compared bit for bit, every header value and every flattened configuration key against what a FITS card can carry, and every field config_from_fits reconstructs (observed, not assumed) against the original.",
+        note="finite/ASCII/card-sized values only (the property's restriction); astropy's FITS card formatting defines what a float header value can carry",
+    ),
 }
